@@ -150,6 +150,16 @@ func init() {
 	libModels["reflect.Value.IsValid"] = func(x *Exec, st *State, e *ast.CallExpr, a []Value, _ []types.Type) (Value, bool) {
 		return x.uf("rvValid", SBool, asTerm(a[0])), true
 	}
+	// reflect's own convertibility / assignability / comparability relations on types: uninterpreted
+	libModels["reflect.Type.ConvertibleTo"] = func(x *Exec, st *State, e *ast.CallExpr, a []Value, _ []types.Type) (Value, bool) {
+		return Term{"(rtConvertibleTo " + asTerm(a[0]).S + " " + asTerm(a[1]).S + ")", SBool}, true
+	}
+	libModels["reflect.Type.AssignableTo"] = func(x *Exec, st *State, e *ast.CallExpr, a []Value, _ []types.Type) (Value, bool) {
+		return Term{"(rtAssignableTo " + asTerm(a[0]).S + " " + asTerm(a[1]).S + ")", SBool}, true
+	}
+	libModels["reflect.Type.Comparable"] = func(x *Exec, st *State, e *ast.CallExpr, a []Value, _ []types.Type) (Value, bool) {
+		return Term{"(rtComparable " + asTerm(a[0]).S + ")", SBool}, true
+	}
 	libModels["reflect.Type.Kind"] = func(x *Exec, st *State, e *ast.CallExpr, a []Value, _ []types.Type) (Value, bool) {
 		return Term{"(rtKind " + asTerm(a[0]).S + ")", SInt}, true
 	}
